@@ -867,7 +867,7 @@ def cases(tier, seed):
                     for dd in ((None, 90.0, 60.0, 45.0) if thorough else (None, 90.0)):
                         for latlon in (False, True):
                             for dtype in ("f8", "f4"):
-                                bks = BACKINGS if (nt, nf) == (2, 2) or thorough else ["numpy"]
+                                bks = BACKINGS if (nt, nf) == (2, 2) else ["numpy"]
                                 for bk in bks:
                                     pats = PATTERNS if thorough else [PATTERNS[n % 3]]
                                     for pat in pats:
